@@ -27,6 +27,12 @@ def run_seed(args):
         q = subprocess.run([os.path.join(VERIF, "check"), c], capture_output=True, text=True, env=env)
         out = q.stdout + q.stderr
         n = sum(1 for l in out.splitlines() if l.startswith("VIOLATION"))
+        if q.returncode not in (0, 1) or (q.returncode == 1 and not n) or "Traceback" in out:
+            # a check that crashes is a broken check, not a catch: keep its output for diagnosis
+            with open(os.path.join(d, "crash-%s.txt" % c), "w") as f:
+                f.write(out[-6000:])
+            fired[c + "(CRASH)"] = [out.strip().splitlines()[-1][:300]] if out.strip() else []
+            continue
         if n:
             fired[c] = [l.strip()[:300] for l in out.splitlines() if "violation:" in l][:3]
     subprocess.run(["git", "-C", wt, "checkout", "-q", "--", "."], check=False)
